@@ -16,51 +16,10 @@ import (
 	"github.com/sarchlab/akita/v5/timing"
 )
 
-func VerifC17_Flush() {
-	engine := timing.NewSerialEngine()
-	spec := DefaultSpec()
-	ways := verifrt.Bound("ways", 1, 2)
-	spec.WayAssociativity = ways
-	spec.TotalByteSize = uint64(2 * ways * 64) // 2 sets x ways x 64-byte blocks
-	spec.NumBanks = 1
-	spec.NumReqPerCycle = 4
-	comp := MakeBuilder().WithRegistrar(modeling.NewStandaloneRegistrar(engine)).WithSpec(spec).
-		WithResources(Resources{Storage: mem.NewStorage(256), AddressToPortMapper: &mem.SinglePortMapper{Port: "Mem.Top"}}).Build("L2")
-	wire := &vpWire{}
-	mk := func(name string) messaging.Port {
-		p := messaging.NewPort(comp, 4, 4, "L2."+name)
-		p.SetConnection(wire)
-		comp.AssignPort(name, p)
-		return p
-	}
-	mk("Top")
-	mk("Bottom")
-	ctrl := mk("Control")
-	f := comp.Middlewares()[1].(*controlMW).flusher
-	st := &comp.State
-	verifrt.Assert(len(st.DirectoryState.Sets) == 2 && len(st.DirectoryState.Sets[0].Blocks) == ways, "geometry")
+type c17Snap struct{ valid, dirty bool }
 
-	// arbitrary directory contents; nothing locked or being read (the cache is paused/drained)
-	type snap struct{ valid, dirty bool }
-	var before [2][2]snap
-	tags := []uint64{0x40, 0x1000} // block-aligned line addresses
-	for s := 0; s < 2; s++ {
-		for w := 0; w < ways; w++ {
-			b := &st.DirectoryState.Sets[s].Blocks[w]
-			b.Tag = tags[verifrt.Choice("tag", len(tags))]
-			b.PID = uint32(1 + verifrt.Choice("pid", 2))
-			flags := verifrt.Choice("flags", 3) // invalid, valid+clean, valid+dirty
-			b.IsValid = flags > 0
-			b.IsDirty = flags == 2
-			if b.IsDirty {
-				b.DirtyMask = []bool{true, false}
-			}
-			before[s][w] = snap{b.IsValid, b.IsDirty}
-		}
-	}
-	st.CacheState = int(cacheStatePaused)
-
-	// the flush request with an arbitrary filter
+// c17Filter draws a flush request with an arbitrary filter.
+func c17Filter(ctrl messaging.Port, tags []uint64) memcontrolprotocol.Req {
 	req := memcontrolprotocol.Req{Command: memcontrolprotocol.CmdFlush}
 	req.ID, req.Src, req.Dst = verifrt.Uint64("req-id"), "Driver.Port", ctrl.AsRemote()
 	switch verifrt.Choice("filter", 4) {
@@ -73,9 +32,15 @@ func VerifC17_Flush() {
 		req.PID = vm.PID(1 + verifrt.Choice("filter-pid", 2))
 		req.Addresses = []uint64{tags[verifrt.Choice("filter-addr", len(tags))], tags[verifrt.Choice("filter-addr2", len(tags))]}
 	}
+	return req
+}
+
+// c17Round delivers one flush request and follows it to its acknowledgement.
+func c17Round(comp *Comp, f *flusher, ctrl messaging.Port, ways int, req memcontrolprotocol.Req, before [2][2]c17Snap) {
+	st := &comp.State
 	ctrl.Deliver(req)
-	verifrt.Assert(f.Tick(), "flush-request-accepted-when-paused")  // extractFromPort -> pre-flushing
-	verifrt.Assert(f.Tick(), "pre-flush-walk-runs")                 // prepareBlockToFlushList -> flushing
+	verifrt.Assert(f.Tick(), "flush-request-accepted-when-paused") // extractFromPort -> pre-flushing
+	verifrt.Assert(f.Tick(), "pre-flush-walk-runs")                // prepareBlockToFlushList -> flushing
 
 	match := func(s, w int) bool {
 		b := st.DirectoryState.Sets[s].Blocks[w]
@@ -139,6 +104,9 @@ func VerifC17_Flush() {
 	}
 	// the bank stage / write buffer complete the evictions (played by the harness)
 	st.DirToBankBufs[0].Clear()
+	for i := range st.Transactions {
+		st.Transactions[i].Removed = true
+	}
 	verifrt.Assert(f.finalizeFlushing(), "flush-finalizes-when-quiescent")
 	rsp, ok := ctrl.RetrieveOutgoing().(memcontrolprotocol.Rsp)
 	verifrt.Assert(ok && rsp.Command == memcontrolprotocol.CmdFlush && rsp.Success && rsp.RspTo == req.ID && rsp.Dst == "Driver.Port", "flush-acknowledged-once-with-its-id")
@@ -155,6 +123,53 @@ func VerifC17_Flush() {
 		}
 	}
 	verifrt.Assert(cacheState(st.CacheState) == cacheStatePaused && !st.HasProcessingFlush, "cache-paused-again-after-the-flush")
+}
+
+func VerifC17_Flush() {
+	engine := timing.NewSerialEngine()
+	spec := DefaultSpec()
+	ways := verifrt.Bound("ways", 1, 2)
+	spec.WayAssociativity = ways
+	spec.TotalByteSize = uint64(2 * ways * 64) // 2 sets x ways x 64-byte blocks
+	spec.NumBanks = 1
+	spec.NumReqPerCycle = 4
+	comp := MakeBuilder().WithRegistrar(modeling.NewStandaloneRegistrar(engine)).WithSpec(spec).
+		WithResources(Resources{Storage: mem.NewStorage(256), AddressToPortMapper: &mem.SinglePortMapper{Port: "Mem.Top"}}).Build("L2")
+	wire := &vpWire{}
+	mk := func(name string) messaging.Port {
+		p := messaging.NewPort(comp, 4, 4, "L2."+name)
+		p.SetConnection(wire)
+		comp.AssignPort(name, p)
+		return p
+	}
+	mk("Top")
+	mk("Bottom")
+	ctrl := mk("Control")
+	f := comp.Middlewares()[1].(*controlMW).flusher
+	st := &comp.State
+	verifrt.Assert(len(st.DirectoryState.Sets) == 2 && len(st.DirectoryState.Sets[0].Blocks) == ways, "geometry")
+
+	// arbitrary directory contents; nothing locked or being read (the cache is paused/drained)
+	var before [2][2]c17Snap
+	tags := []uint64{0x40, 0x1000} // block-aligned line addresses
+	for s := 0; s < 2; s++ {
+		for w := 0; w < ways; w++ {
+			b := &st.DirectoryState.Sets[s].Blocks[w]
+			b.Tag = tags[verifrt.Choice("tag", len(tags))]
+			b.PID = uint32(1 + verifrt.Choice("pid", 2))
+			flags := verifrt.Choice("flags", 3) // invalid, valid+clean, valid+dirty
+			b.IsValid = flags > 0
+			b.IsDirty = flags == 2
+			if b.IsDirty {
+				b.DirtyMask = []bool{true, false}
+			}
+			before[s][w] = c17Snap{b.IsValid, b.IsDirty}
+		}
+	}
+	st.CacheState = int(cacheStatePaused)
+
+	req := c17Filter(ctrl, tags)
+	c17Round(comp, f, ctrl, ways, req, before)
 	verifrt.Cover("end")
 }
 
@@ -181,5 +196,52 @@ func VerifC17_FlushWhileRunning() {
 	rsp, ok := ctrl.RetrieveOutgoing().(memcontrolprotocol.Rsp)
 	verifrt.Assert(ok && !rsp.Success && rsp.Error == memcontrolprotocol.ErrMustBePausedOrDrained && rsp.RspTo == req.ID, "flush-while-running-refused")
 	verifrt.Assert(len(comp.State.FlusherBlockToEvictRefs) == 0 && !comp.State.HasProcessingFlush, "refused-flush-starts-nothing")
+	verifrt.Cover("end")
+}
+
+// VerifC17_TwoFlushes: a second flush after lines were dirtied again starts from
+// a clean slate: nothing remembered from the first flush is cleaned or evicted.
+func VerifC17_TwoFlushes() {
+	engine := timing.NewSerialEngine()
+	spec := DefaultSpec()
+	ways := 1
+	spec.WayAssociativity = ways
+	spec.TotalByteSize = uint64(2 * ways * 64)
+	spec.NumBanks = 1
+	spec.NumReqPerCycle = 4
+	comp := MakeBuilder().WithRegistrar(modeling.NewStandaloneRegistrar(engine)).WithSpec(spec).
+		WithResources(Resources{Storage: mem.NewStorage(256), AddressToPortMapper: &mem.SinglePortMapper{Port: "Mem.Top"}}).Build("L2")
+	wire := &vpWire{}
+	mk := func(name string) messaging.Port {
+		p := messaging.NewPort(comp, 4, 4, "L2."+name)
+		p.SetConnection(wire)
+		comp.AssignPort(name, p)
+		return p
+	}
+	mk("Top")
+	mk("Bottom")
+	ctrl := mk("Control")
+	f := comp.Middlewares()[1].(*controlMW).flusher
+	st := &comp.State
+	tags := []uint64{0x40, 0x1000}
+	var before [2][2]c17Snap
+	for s := 0; s < 2; s++ {
+		b := &st.DirectoryState.Sets[s].Blocks[0]
+		b.Tag, b.PID, b.IsValid, b.IsDirty, b.DirtyMask = tags[s], uint32(1+s), true, true, []bool{true, false}
+		before[s][0] = c17Snap{true, true}
+	}
+	st.CacheState = int(cacheStatePaused)
+	// first flush: arbitrary filter
+	c17Round(comp, f, ctrl, ways, c17Filter(ctrl, tags), before)
+	// some lines are written again
+	for s := 0; s < 2; s++ {
+		b := &st.DirectoryState.Sets[s].Blocks[0]
+		if verifrt.Choice("dirtied-again", 2) == 1 {
+			b.IsDirty, b.DirtyMask = true, []bool{false, true}
+		}
+		before[s][0] = c17Snap{b.IsValid, b.IsDirty}
+	}
+	// second flush: arbitrary filter
+	c17Round(comp, f, ctrl, ways, c17Filter(ctrl, tags), before)
 	verifrt.Cover("end")
 }
